@@ -193,7 +193,13 @@ def _job(args):
             res["paths"] += 1
             if kind == "exc":
                 res["exc_paths"] += 1
-            for f in h.judge(kind, out):
+            try:
+                fl = list(h.judge(kind, out))
+            except symex.Infeasible:
+                # the clause evaluation itself forked (interpreted accessor) and no side is satisfiable
+                res["errors"].append("harness error: path condition unsatisfiable while judging a path")
+                continue
+            for f in fl:
                 res["verdicts"][f["clause"] + ":" + f["verdict"]] += 1
                 if f["verdict"] != "valid":
                     if sum(1 for x in res["findings"] if x["clause"] == f["clause"]) < limit:
